@@ -978,7 +978,7 @@ def gen_cases(tier, rng):
         off = rng.randrange(k)
         cases += small[off::k]
     cases += _malformed(rng)
-    nrand = 5000 if tier == "thorough" else 450
+    nrand = 9000 if tier == "thorough" else 450
     for i in range(nrand):
         tg = _Tagger()
         depth = rng.choice([1, 1, 2, 2, 2, 3, 3])
